@@ -542,6 +542,48 @@ def _install_dispatchers():
     wrap_fd("ftruncate", lambda fs, fd, n: fs.fd_raw(fd).truncate(n))
     wrap_fd("fstat", lambda fs, fd: fs.stat(fs.fd_raw(fd).path))
 
+    def _pwrite(fs, fd, data, offset):
+        raw = fs.fd_raw(fd)
+        keep = raw._pos
+        raw._pos = offset  # (an O_APPEND descriptor appends regardless, as on Linux)
+        try:
+            return raw.write(data)
+        finally:
+            raw._pos = keep
+
+    def _pread(fs, fd, n, offset):
+        raw = fs.fd_raw(fd)
+        keep = raw._pos
+        raw._pos = offset
+        try:
+            buf = bytearray(n)
+            return bytes(buf[: raw.readinto(buf)])
+        finally:
+            raw._pos = keep
+
+    if hasattr(os, "pwrite"):
+        wrap_fd("pwrite", _pwrite)
+        wrap_fd("pread", _pread)
+    if hasattr(os, "writev"):
+        wrap_fd("writev", lambda fs, fd, bufs: fs.fd_raw(fd).write(b"".join(bytes(b) for b in bufs)))
+
+    def unsupported_fd(name):
+        real = getattr(os, name)
+        _REAL["os." + name] = real
+
+        def disp(fd, *a, **k):
+            fs = _MOUNTED
+            if fs is not None and isinstance(fd, int) and fd in fs.fds:
+                raise HarnessUnsupported(f"os.{name} on a simulated descriptor")
+            return real(fd, *a, **k)
+
+        disp.__name__ = name
+        setattr(os, name, disp)
+
+    for n in ("readv", "sendfile", "posix_fallocate", "posix_fadvise", "fchmod", "fchown", "dup", "dup2", "lockf", "preadv", "pwritev", "set_inheritable", "get_inheritable", "set_blocking", "get_blocking", "fpathconf", "fstatvfs"):
+        if hasattr(os, n):
+            unsupported_fd(n)
+
     for n in ("rmdir", "chmod", "truncate", "utime", "link", "symlink", "readlink", "walk"):
         if hasattr(os, n):
             unsupported(n)
